@@ -833,7 +833,7 @@ def _run(tier, seed, wd):
         tid = t["tid"]
         cmp_, pv, mv = rows[tid][:3]
         docs, safes = tid_info[tid]
-        if mv == "violated":
+        if mv == "violated" and pv != "violated":
             p = E.write_replay(PROP, docs, safes, {"verdict": list(rows[tid][:3]), "note": "MODEL violates the table"})
             raise E.MachineryError(f"AyMerge violates the table on recorded history {tid} (replay={p}): " + json.dumps([S.render_doc(d) for d in docs]))
         mv_[pv] += 1
